@@ -2,6 +2,7 @@ import PewProofs.Imzml
 import PewProofs.ImzmlPlace
 import PewProofs.ImzmlBins
 import PewProofs.ImzmlRead
+import PewProofs.ImzmlExt
 
 /-! # C05 — property theorems (statements only depend on `PewModel.Imzml`) -/
 namespace Pew.Imzml
@@ -81,6 +82,124 @@ example : Incr [100, 200, 300, 400] ∧ ([1, 2, 4, 8] : List Rat).length = ([100
   refine ⟨?_, rfl⟩
   simp only [Incr]; norm_num
 
+/-! ## one spectrum: every target on its own, peaks outside a window, windows outside the spectrum -/
+
+/-- The loop body treats the windows one by one, whatever the list looks like (no hypothesis: this
+is the mechanism): the extraction of a list of windows is the concatenation of the single-window
+extractions.  So hundreds of targets, unsorted targets, duplicate targets and overlapping windows
+each get exactly what they would get alone. -/
+theorem extract_window_by_window (mz it : List Rat) (wins : List (Rat × Rat)) :
+    extractSpectrum mz it wins = wins.flatMap (fun w => extractSpectrum mz it [w]) := by
+  induction wins with
+  | nil => simp [extractSpectrum_nil]
+  | cons w r ih => rw [extractSpectrum_cons', ih, List.flatMap_cons]
+
+/-- Pointwise form of `extract_correct`: as many sums as windows, and the `k`-th sum is the
+half-open window sum of the `k`-th window — it depends on no other window (unsorted, duplicate,
+overlapping targets). -/
+theorem extract_pointwise (mz it : List Rat) (wins : List (Rat × Rat)) (hs : Incr mz)
+    (hlen : it.length = mz.length) (k : Nat) :
+    (extractSpectrum mz it wins).length = wins.length ∧
+    (extractSpectrum mz it wins)[k]? = (wins[k]?).map (fun w => windowSum mz it w.1 w.2) := by
+  refine ⟨extractSpectrum_length mz it wins, ?_⟩
+  rw [extract_correct mz it wins hs hlen]
+  simp [specSpectrum, List.getElem?_map]
+
+/-- Reordering the targets reorders the sums in the same way. -/
+theorem extract_perm (mz it : List Rat) (wins wins' : List (Rat × Rat)) (hs : Incr mz)
+    (hlen : it.length = mz.length) (h : wins.Perm wins') :
+    (extractSpectrum mz it wins).Perm (extractSpectrum mz it wins') := by
+  rw [extract_correct mz it wins hs hlen, extract_correct mz it wins' hs hlen]
+  exact h.map _
+
+example : extractSpectrum [100, 200, 300, 400] [1, 2, 4, 8] [(350, 450), (50, 250), (350, 450), (150, 350)]
+    = [8, 3, 8, 6] := by decide +kernel
+
+/-- Peaks outside a window do not take part in its sum: their intensities may be replaced by any
+values whatever (`g`) — a peak of 10¹⁷ below the window included — and the extracted value stays
+the same.  ("the sum of EXACTLY those intensities whose m/z lies in the window") -/
+theorem outside_peaks_irrelevant (mz it : List Rat) (lo hi : Rat) (g : Rat → Rat → Rat) (hs : Incr mz)
+    (hlen : it.length = mz.length) :
+    extractSpectrum mz (List.zipWith (fun m i => if lo ≤ m ∧ m < hi then i else g m i) mz it) [(lo, hi)]
+      = extractSpectrum mz it [(lo, hi)] := by
+  rw [extract_correct mz _ _ hs (by simp [hlen]), extract_correct mz it _ hs hlen]
+  simp [specSpectrum, windowSum_outside]
+
+example : extractSpectrum [50, 100, 101] [100000000000000000, 1, 2] [(99, 102)] = [3] ∧
+    List.zipWith (fun m i => if (99 : Rat) ≤ m ∧ m < 102 then i else (0 : Rat)) [50, 100, 101] [100000000000000000, 1, 2]
+      = [0, 1, 2] := by
+  constructor <;> decide +kernel
+
+/-- A window wholly below or wholly above the spectrum extracts 0 (no positivity of the
+intensities is needed for this direction). -/
+theorem window_outside_spectrum (mz it : List Rat) (lo hi : Rat) (hs : Incr mz)
+    (hlen : it.length = mz.length) (h : (∀ m ∈ mz, hi ≤ m) ∨ (∀ m ∈ mz, m < lo)) :
+    extractSpectrum mz it [(lo, hi)] = [0] := by
+  rw [extract_correct mz it _ hs hlen]
+  simp only [specSpectrum, List.map_cons, List.map_nil, List.cons.injEq, and_true]
+  apply windowSum_zero_of_no_peak
+  rintro ⟨m, hm, h1, h2⟩
+  rcases h with h | h
+  · exact absurd (h m hm) (not_le.mpr h2)
+  · exact absurd (h m hm) (not_lt.mpr h1)
+
+example : (∀ m ∈ ([100, 200] : List Rat), (90 : Rat) ≤ m) ∧ extractSpectrum [100, 200] [1, 2] [(50, 90), (250, 300)] = [0, 0] := by
+  refine ⟨?_, by decide +kernel⟩
+  intro m hm
+  simp only [List.mem_cons, List.not_mem_nil, or_false] at hm
+  rcases hm with rfl | rfl <;> norm_num
+
+/-- A window that holds every peak extracts the summed intensities — the value the TIC image shows
+for a spectrum without a stored total ion current (`ticOf`). -/
+theorem window_with_every_peak (s : Spectrum) (lo hi : Rat) (hs : Incr s.mz)
+    (hlen : s.it.length = s.mz.length) (h : ∀ m ∈ s.mz, lo ≤ m ∧ m < hi) (ht : s.tic = none) :
+    extractSpectrum s.mz s.it [(lo, hi)] = [ticOf s] := by
+  rw [extract_correct s.mz s.it _ hs hlen]
+  simp [specSpectrum, windowSum_all s.mz s.it hlen h, ticOf, ht]
+
+example : extractSpectrum [100, 200] [1, 2] [(100, 201)] = [ticOf ⟨1, 1, none, [100, 200], [1, 2]⟩] := by
+  decide +kernel
+
+/-! ## adjacent half-open windows -/
+
+/-- Two windows sharing an edge `mid`: a peak lies in `[lo, hi)` iff it lies in one of `[lo, mid)`,
+`[mid, hi)`, never in both; a peak exactly ON the shared edge is outside the lower window and (when
+the upper window is not empty) inside the upper one. -/
+theorem shared_edge_once (lo mid hi m i : Rat) (h1 : lo ≤ mid) (h2 : mid ≤ hi) :
+    ((lo ≤ m ∧ m < hi) ↔ ((lo ≤ m ∧ m < mid) ∨ (mid ≤ m ∧ m < hi))) ∧
+    ¬ ((lo ≤ m ∧ m < mid) ∧ (mid ≤ m ∧ m < hi)) ∧
+    windowSum [mid] [i] lo mid = 0 ∧ (mid < hi → windowSum [mid] [i] mid hi = i) := by
+  refine ⟨?_, ?_, ?_, ?_⟩
+  · constructor
+    · rintro ⟨a, b⟩
+      rcases lt_or_ge m mid with h | h
+      · exact Or.inl ⟨a, h⟩
+      · exact Or.inr ⟨h, b⟩
+    · rintro (⟨a, b⟩ | ⟨a, b⟩)
+      · exact ⟨a, lt_of_lt_of_le b h2⟩
+      · exact ⟨le_trans h1 a, b⟩
+  · rintro ⟨⟨_, b⟩, ⟨c, _⟩⟩
+    exact absurd c (not_le.mpr b)
+  · simp [windowSum]
+  · intro h; simp [windowSum, h]
+
+/-- A chain of adjacent windows `[e₀, e₁), [e₁, e₂), …, [eₙ₋₁, eₙ)` (strictly increasing edges;
+target masses `m, m + w, …` with an absolute width `w`): the extracted sums add up to the window sum
+over `[e₀, eₙ)` — every peak of that range is counted in exactly one window, a peak on a shared edge
+too. -/
+theorem adjacent_windows_once (mz it : List Rat) (e : Rat) (r : List Rat) (hs : Incr mz)
+    (hlen : it.length = mz.length) (he : Incr (e :: r)) :
+    ∀ l, (e :: r).getLast? = some l →
+      (extractSpectrum mz it (chain (e :: r))).sum = windowSum mz it e l := by
+  intro l hl
+  rw [extract_correct mz it _ hs hlen]
+  exact chain_sum mz it e r he l hl
+
+example : Incr (99 :: [100, 101, 102]) ∧ chain [99, 100, 101, 102] = [(99, 100), (100, 101), (101, 102)] ∧
+    extractSpectrum [99, 100, 101, 203/2] [1, 2, 4, 8] (chain [99, 100, 101, 102]) = [1, 2, 12] ∧
+    windowSum [99, 100, 101, 203/2] [1, 2, 4, 8] 99 102 = 15 := by
+  refine ⟨by simp only [Incr]; norm_num, by decide +kernel, by decide +kernel, by decide +kernel⟩
+
 /-! ## window edges -/
 
 /-- The window of a target mass `m` is `[m - w/2, m + w/2)`: it is centred on `m` and its width is
@@ -118,6 +237,31 @@ theorem ppm_is_abs (mz it : List Rat) (masses : List Rat) (p : Rat) :
 
 example : windows [200] (.ppm 10000) = [(199, 201)] ∧ windows [200] (.mz 2) = [(199, 201)] := by
   constructor <;> decide +kernel
+
+/-- The target masses are treated one by one with either kind of width (no hypothesis): the value
+for a target does not depend on which other targets are asked for, in which order, or how often. -/
+theorem extract_target_by_target (mz it : List Rat) (masses : List Rat) (w : Width) :
+    extractSpectrum mz it (windows masses w) = masses.flatMap (fun m => extractSpectrum mz it (windows [m] w)) := by
+  rw [extract_window_by_window]
+  simp [windows, List.flatMap_map]
+
+/-- ppm windows are scale-free: multiplying every m/z of the spectrum and every target mass by the
+same positive factor leaves a ppm extraction unchanged (small and large masses behave alike). -/
+theorem ppm_scale_free (mz it masses : List Rat) (p k : Rat) (hk : 0 < k) (hs : Incr mz)
+    (hlen : it.length = mz.length) :
+    extractSpectrum (mz.map (k * ·)) it (windows (masses.map (k * ·)) (.ppm p))
+      = extractSpectrum mz it (windows masses (.ppm p)) := by
+  rw [extract_correct _ it _ (incr_scale hk hs) (by simp [hlen]), extract_correct mz it _ hs hlen]
+  simp only [specSpectrum, windows, List.map_map]
+  apply List.map_congr_left
+  intro m _
+  simp only [Function.comp, halfWidth]
+  have e1 : k * m - k * m * p / 1000000 / 2 = k * (m - m * p / 1000000 / 2) := by ring
+  have e2 : k * m + k * m * p / 1000000 / 2 = k * (m + m * p / 1000000 / 2) := by ring
+  rw [e1, e2, windowSum_scale _ _ _ _ _ hk]
+
+example : extractSpectrum ([100, 200].map ((1 / 64 : Rat) * ·)) [1, 2] (windows ([100].map ((1 / 64 : Rat) * ·)) (.ppm 10000))
+    = extractSpectrum [100, 200] [1, 2] (windows [100] (.ppm 10000)) := by decide +kernel
 
 /-! ## the external binary -/
 
